@@ -209,24 +209,36 @@ package governance
 //@   ensures err == nil ==> old(fund(pf))[totKey(proposalId)] >= old(fund(pf))[indKey(proposalId, str(fundingAddress))]                                 // C14.fund-non-negative
 //@   ensures err == nil && result0 ==> fundSum(pf)[proposalId] == old(fundSum(pf))[proposalId] - old(fund(pf))[indKey(proposalId, str(fundingAddress))] // C14.fund-delete
 
-// iteration over the individual records of one proposal (GetFundsForProposalID -> iterate -> State.IterateRange, which
-// walks the committed tree only: records written earlier in the same block are not visited). Assumed typed view:
-// every yield is an individual record of proposal id.
-//@ assume func (*ProposalFundStore).GetFundsForProposalID
-//@   iterator
-//@   requires pf != nil
-//@   modifies nothing
-//@   yields y0 == id && y2 != nil
+// iteration over the individual fund records, verified on the bodies (prefix scan "<prefix>i_" through the assumed
+// storage.(*State).IterateRange): iterate hands out non-nil decoded amounts, GetFundsForProposalID only the elements whose
+// proposal id (third "_"-separated piece of the key) is the requested one; both stop early only when the callback asks
+// for it. Completeness is not claimed (the scan walks committed keys only: records written earlier in the same block are
+// not visited), nor that the yielded amount is the ledger value (that would need the typed view; no caller relies on it:
+// DeleteAllFunds re-reads every record through DeleteFunds).
+// KNOWN FAILING, real code: iterate's wrapper `return true`s when a value does not decode or an address does not parse,
+// which silently ends the whole scan (iter-stop[iter1]). A record deleted earlier in the same block is still visited, with
+// the tombstone as value, and is such a value.
+//@ func (*ProposalFundStore).iterate
+//@   iterator                                   // C14.fund-scan
+//@   requires pf != nil && pf.State != nil
+//@   modifies exhausted(pf.State.cache), exhausted(pf.State.txSession)
+//@   yields y2 != nil                           // C14.fund-scan
+
+//@ func (*ProposalFundStore).GetFundsForProposalID
+//@   iterator                                   // C14.fund-scan
+//@   requires pf != nil && pf.State != nil
+//@   modifies exhausted(pf.State.cache), exhausted(pf.State.txSession)
+//@   yields y0 == id && y2 != nil               // C14.fund-scan
 
 //@ func (*ProposalFundStore).IsFundedByFunder
-//@   requires pf != nil
-//@   modifies nothing
+//@   requires pf != nil && pf.State != nil
+//@   modifies exhausted(pf.State.cache), exhausted(pf.State.txSession)
 
 // DeleteAllFunds: applies DeleteFunds to the visited records of proposal id (each zeroes an individual record and takes it
 // off the total record) and finally sets the total record to zero; records other than the total are unchanged or zeroed
 //@ func (*ProposalFundStore).DeleteAllFunds
-//@   requires pf != nil
-//@   modifies fund(pf), fundBad(pf), fundSum(pf)[id], vHas(pf.State), vVal(pf.State)
+//@   requires pf != nil && pf.State != nil
+//@   modifies fund(pf), fundBad(pf), fundSum(pf)[id], vHas(pf.State), vVal(pf.State), exhausted(pf.State.cache), exhausted(pf.State.txSession)
 //@   invariant iter1: forall k string :: k != totKey(id) ==> fund(pf)[k] == old(fund(pf))[k] || fund(pf)[k] == 0
 //@   ensures err == nil ==> fund(pf)[totKey(id)] == 0 && !fundBad(pf)[totKey(id)]                                 // C14.funds-deleted
 //@   ensures forall k string :: k != totKey(id) ==> fund(pf)[k] == old(fund(pf))[k] || fund(pf)[k] == 0           // C14.funds-deleted
@@ -352,12 +364,41 @@ package governance
 //@   ensures err == nil ==> result0 != nil && fresh(result0) && *result0 == evOpt(st)
 //@   ensures err != nil ==> result0 == nil
 
-// iteration over the records of the current stage prefix (assumed typed view of State.IterateRange: committed keys only)
-// itCount(ps)[p]: number of records the iteration over stage prefix p visits (when the callback never stops it)
+// typed view of a scanned proposal record (A-TYPEDVIEW: the same trust the assumed Get/Set carry, stated once for scans):
+// a visible value under a key of the stage prefix that decodes as a Proposal IS the ledger record filed under its own
+// ProposalID in that stage
+//@ axiom forall ps *ProposalStore, k string :: vHas(ps.state)[k] && scanKey(k, str(ps.prefix)) && deserok(vVal(ps.state)[k], "Proposal") ==> propHas(ps, ps.prefix, deser(vVal(ps.state)[k], "Proposal").ProposalID) && propRec(ps, ps.prefix, deser(vVal(ps.state)[k], "Proposal").ProposalID) == deser(vVal(ps.state)[k], "Proposal")   // A-TYPEDVIEW
+
+// iteration over the records of the current stage prefix, verified on its body (prefix scan through the assumed
+// storage.(*State).IterateRange). y0 is the WHOLE store key (the code converts the key, prefix included, to a ProposalID),
+// y1 the decoded record; when the read was fresh (gas limit not reached, key not deleted in the overlay: the condition
+// under which IterateRange's value is the visible value) y1 is the ledger record filed under y1.ProposalID.
+// Completeness is not claimed (the scan walks committed keys only).
+// itCount(ps)[p] is only a NAME for the number of records a scan of stage prefix p visits (no claim about it; app.AddInternalTX
+// uses it to bound the number of commits it makes).
+// KNOWN FAILING, real code: the wrapper `return true`s when a value does not decode, which silently ends the whole scan
+// (iter-stop[iter1]); a record deleted earlier in the same block is still visited with the tombstone as value.
 //@ model itCount(*ProposalStore) array[string]int
-//@ assume func (*ProposalStore).Iterate
-//@   iterator
-//@   requires ps != nil
-//@   modifies nothing
+//@ func (*ProposalStore).Iterate
+//@   iterator                                   // C14.proposal-scan
+//@   requires ps != nil && ps.state != nil
+//@   modifies exhausted(ps.state.cache), exhausted(ps.state.txSession)
 //@   count itCount(ps)[str(ps.prefix)]
-//@   yields y1 != nil && propHas(ps, ps.prefix, y0) && *y1 == propRec(ps, ps.prefix, y0) && y1.ProposalID == y0
+//@   yields y1 != nil && scanKey(y0, str(ps.prefix))   // C14.proposal-scan
+//@   yields !exhausted(ps.state.cache) && vHas(ps.state)[y0] ==> propHas(ps, ps.prefix, y1.ProposalID) && *y1 == propRec(ps, ps.prefix, y1.ProposalID)   // C14.proposal-scan
+
+// filtered scans on top of Iterate, verified on their bodies: only matching records are handed out (with Iterate's typed
+// view of them), and a record that is skipped does not end the scan
+//@ func (*ProposalStore).IterateProposer
+//@   iterator                                   // C14.proposal-scan
+//@   requires ps != nil && ps.state != nil
+//@   modifies exhausted(ps.state.cache), exhausted(ps.state.txSession)
+//@   yields y1 != nil && str(y1.Proposer) == str(proposer)   // C14.proposal-scan
+//@   yields !exhausted(ps.state.cache) && vHas(ps.state)[y0] ==> propHas(ps, ps.prefix, y1.ProposalID) && *y1 == propRec(ps, ps.prefix, y1.ProposalID)   // C14.proposal-scan
+
+//@ func (*ProposalStore).IterateProposalType
+//@   iterator                                   // C14.proposal-scan
+//@   requires ps != nil && ps.state != nil
+//@   modifies exhausted(ps.state.cache), exhausted(ps.state.txSession)
+//@   yields y1 != nil && y1.Type == proposalType   // C14.proposal-scan
+//@   yields !exhausted(ps.state.cache) && vHas(ps.state)[y0] ==> propHas(ps, ps.prefix, y1.ProposalID) && *y1 == propRec(ps, ps.prefix, y1.ProposalID)   // C14.proposal-scan
